@@ -26,6 +26,7 @@ import (
 	"runtime"
 	"strings"
 	"sync"
+	"sync/atomic"
 	"testing"
 	"time"
 
@@ -56,8 +57,16 @@ type c17In struct {
 	NP   int    // number of peers
 	Mode string // "" = Service value + gater built by the driver; "e2e" = Service from libp2p.New,
 	//             dial = host.Connect (ops: block, query, dial, list)
-	PT  int // e2e: role of the local node (0 bootnode, 1 provider, 2 bidder)
-	Ops []c17Op
+	PT int // e2e: role of the local node (0 bootnode, 1 provider, 2 bidder)
+	// Mode "stress" (class concurrent-expiry): Ops is [block P d; block P 0 (Adv > d); query P].  The
+	// permanent block is placed while Q goroutines ask isBlocked / InterceptPeerDial about the peer,
+	// whose timed entry has expired and is not yet purged; repeated Rounds times (or until Budget
+	// milliseconds are spent) on fresh state; the round reported is the first whose final, quiescent
+	// answer is "not blocked", else the last one.
+	Rounds int
+	Q      int
+	Budget int
+	Ops    []c17Op
 }
 
 type c17Step struct {
@@ -108,6 +117,14 @@ func c17NewWorld(r *rand.Rand, n int) *c17World {
 	}
 	w.cm = c17Addrs{m}
 	return w
+}
+
+// peers beyond the keyed ones (many-peers class) have synthetic identities
+func (w *c17World) pid(i int) peer.ID {
+	if i >= 0 && i < len(w.peers) {
+		return w.peers[i]
+	}
+	return peer.ID(fmt.Sprintf("c17-synthetic-peer-%d", i))
 }
 
 func c17Tick() {
@@ -237,10 +254,7 @@ func c17Try(w *c17World, in c17In) (obs c17Obs, ok bool) {
 			s.blockMu.Unlock()
 			V += op.Adv
 		}
-		var p peer.ID
-		if op.P >= 0 && op.P < len(w.peers) {
-			p = w.peers[op.P]
-		}
+		p := w.pid(op.P)
 		st := c17Step{Ans: []int64{}}
 		if op.K == "block" {
 			c += 2
@@ -310,7 +324,115 @@ func c17Try(w *c17World, in c17In) (obs c17Obs, ok bool) {
 	return obs, time.Since(begin)-slept < time.Duration(G/2)
 }
 
+// concurrent-expiry: see c17In.  The queries that run concurrently with the permanent block are not
+// part of the reported history: by C17_permanent the verdict after "Block p 0" does not depend on
+// what else happens before or after it.
+func c17Stress(w *c17World, in c17In) (c17Obs, bool) {
+	if len(in.Ops) != 3 || in.Ops[0].K != "block" || in.Ops[1].K != "block" || in.Ops[2].K != "query" ||
+		in.Ops[1].D != 0 || in.Ops[0].D <= 0 || in.Ops[1].Adv <= in.Ops[0].D || in.Q < 1 || in.Q > 16 ||
+		runtime.GOMAXPROCS(0) < 2 {
+		return c17Obs{}, false
+	}
+	p := w.pid(in.Ops[0].P)
+	G := in.G
+	s := &Service{blockMap: make(map[peer.ID]blockInfo), logger: w.log, peers: newPeerRegistry()}
+	g := newGater(w.log)
+	g.setBlocker(s)
+	var round, done int64 // round: published round number; done: workers finished in this round
+	stop := make(chan struct{})
+	var wg sync.WaitGroup
+	worker := func(k int) {
+		defer wg.Done()
+		seen := int64(0)
+		for {
+			for atomic.LoadInt64(&round) == seen {
+				select {
+				case <-stop:
+					return
+				default:
+				}
+				runtime.Gosched()
+			}
+			seen = atomic.LoadInt64(&round)
+			switch {
+			case k == 0:
+				// the re-block: a little after the queries have started
+				for i := int(seen % 64); i > 0; i-- {
+					_ = atomic.LoadInt64(&done)
+				}
+				s.blockPeer(p, 0, "verif")
+			case k%2 == 1:
+				_ = s.isBlocked(p)
+			default:
+				_ = g.InterceptPeerDial(p)
+			}
+			atomic.AddInt64(&done, 1)
+		}
+	}
+	wg.Add(in.Q + 1)
+	for k := 0; k <= in.Q; k++ {
+		go worker(k)
+	}
+	deadline := time.Now().Add(time.Duration(in.Budget) * time.Millisecond)
+	final := int64(1)
+	for r := 1; r <= in.Rounds; r++ {
+		// an expired, not yet purged timed entry
+		s.blockMu.Lock()
+		for id := range s.blockMap {
+			delete(s.blockMap, id)
+		}
+		s.blockMap[p] = blockInfo{reason: "verif", start: time.Now().Add(-time.Duration(in.Ops[1].Adv * G)),
+			duration: time.Duration(in.Ops[0].D * G)}
+		s.blockMu.Unlock()
+		atomic.StoreInt64(&done, 0)
+		atomic.StoreInt64(&round, int64(r))
+		for atomic.LoadInt64(&done) < int64(in.Q+1) {
+			runtime.Gosched()
+		}
+		// quiescent: a permanent block has been placed after the last expiry
+		if !s.isBlocked(p) {
+			final = 0
+			break
+		}
+		if in.Budget > 0 && r%256 == 0 && time.Now().After(deadline) {
+			break
+		}
+	}
+	close(stop)
+	wg.Wait()
+	raw := func() []int64 {
+		var out []int64
+		s.blockMu.Lock()
+		defer s.blockMu.Unlock()
+		for i := 0; i < in.NP; i++ {
+			if bi, found := s.blockMap[w.pid(i)]; found {
+				out = append(out, int64(bi.duration))
+			} else {
+				out = append(out, -1)
+			}
+		}
+		return out
+	}
+	first := make([]int64, in.NP)
+	for i := range first {
+		first[i] = -1
+	}
+	if in.Ops[0].P < in.NP {
+		first[in.Ops[0].P] = in.Ops[0].D * G
+	}
+	V := in.Ops[1].Adv
+	end := raw()
+	return c17Obs{Steps: []c17Step{
+		{T: 2, Ans: []int64{}, Raw: first},
+		{T: V*G + 4, Ans: []int64{}, Raw: end},
+		{T: V*G + 5, Ans: []int64{final}, Raw: end},
+	}}, true
+}
+
 func c17Run(w *c17World, in c17In) (c17Obs, bool) {
+	if in.Mode == "stress" {
+		return c17Stress(w, in)
+	}
 	tries := 8
 	for _, op := range in.Ops {
 		if op.Idle {
@@ -489,7 +611,7 @@ func TestVerifC17(t *testing.T) {
 			return
 		}
 		for _, op := range in.Ops {
-			if op.P < 0 || op.P >= in.NP || op.D < 0 || op.Adv < 0 {
+			if op.P < 0 || (op.P >= in.NP && !(in.Mode == "many" && op.K == "block" && op.P < 100000)) || op.D < 0 || op.Adv < 0 {
 				return
 			}
 			if in.Mode == "e2e" && op.K != "block" && op.K != "query" && op.K != "dial" && op.K != "list" && op.K != "secured" {
@@ -568,6 +690,36 @@ func TestVerifC17(t *testing.T) {
 			{K: "dial", P: 1}, {K: "query", P: 1}, {K: "block", P: 0, D: 12}, {K: "dial", P: 0}, {K: "query", P: 0},
 			{K: "block", P: 1, D: 12}, {K: "dial", P: 0, Adv: 12 - int64(e.rng.Intn(2))}, {K: "query", P: 0},
 			{K: "secured", P: 1, Adv: 1}, {K: "query", P: 1}, {K: "dial", P: 0}, {K: "query", P: 0}, {K: "list"}}})
+	}
+	// concurrent-expiry: a permanent block placed while several goroutines ask about the peer, whose
+	// timed entry has run out and is still in the map
+	if runtime.GOMAXPROCS(0) >= 2 {
+		rounds, budget := 40000, 1500
+		if e.Tier == "thorough" {
+			rounds, budget = 400000, 8000
+		}
+		run("concurrent-expiry", c17In{G: int64(100 * time.Millisecond), NP: 1, Mode: "stress", Rounds: rounds, Q: 3 + e.rng.Intn(3),
+			Budget: budget, Ops: []c17Op{{K: "block", P: 0, D: 1}, {K: "block", P: 0, D: 0, Adv: 2}, {K: "query", P: 0}}})
+	}
+	// many-peers: more than a thousand distinct peers are blocked; the ones blocked first stay blocked
+	{
+		n := 1100 + e.rng.Intn(300)
+		if e.Tier == "thorough" {
+			n = 3000
+		}
+		in := c17In{G: int64(10 * time.Second), NP: 4, Mode: "many"}
+		for i := 0; i < n; i++ {
+			d := int64(0)
+			if i >= 4 && i%7 == 0 {
+				d = 30
+			}
+			in.Ops = append(in.Ops, c17Op{K: "block", P: i, D: d})
+		}
+		for i := 0; i < 4; i++ {
+			in.Ops = append(in.Ops, c17Op{K: "query", P: i})
+		}
+		in.Ops = append(in.Ops, c17Op{K: "dial", P: 0}, c17Op{K: "query", P: 0}, c17Op{K: "secured", P: 3}, c17Op{K: "query", P: 3}, c17Op{K: "list"})
+		run("many-peers", in)
 	}
 	// small-scope exhaustive: L blocks on one peer (duration, advance in {0,1,2}), then a
 	// final advance and every kind of question
